@@ -410,7 +410,11 @@ func (c *c11Env) avsCase(sigKinds []int, inject bool, retarget bool, tags []stri
 	ctx, _ := c.env.Ctx.CacheContext()
 	ms := avskeeper.NewMsgServerImpl(app.AVSManagerKeeper)
 	for i, k := range sigKinds {
-		op := c.env.Operators[i%len(c.env.Operators)]
+		submitters := []sdk.AccAddress{c.env.Operators[0], c.env.Operators[1], c.opX}
+		op := submitters[i%len(submitters)]
+		if len(sigKinds) == 1 && c.rng.Intn(4) == 0 {
+			op = c.opX // has a BLS key but is not in the task's opt-in snapshot
+		}
 		var sig []byte
 		present := true
 		switch k {
@@ -436,14 +440,22 @@ func (c *c11Env) avsCase(sigKinds []int, inject bool, retarget bool, tags []stri
 			_, err := ms.SubmitTaskResult(sdk.WrapSDKContext(ctx), &avstypes.SubmitTaskResultReq{FromAddress: op.String(), Info: info})
 			return err
 		})
+		inSnapshot := false
+		if ti, err := app.AVSManagerKeeper.GetTaskInfo(ctx, strconv.FormatUint(c.taskID, 10), c11Task); err == nil {
+			for _, o := range ti.OptInOperators {
+				if o == op.String() {
+					inSnapshot = true
+				}
+			}
+		}
 		window := false
 		if ep, found := app.EpochsKeeper.GetEpochInfo(ctx, epochstypes.HourEpochID); found {
 			window = ep.CurrentEpoch <= c.statEp-1
 		}
-		c.emit(cApp("PSubmit", cBool(present), cZ(int64(len(sig))), cBool(window)), obs, true,
-			map[string]interface{}{"kind": "avs-submit", "present": present, "siglen": len(sig), "in_response_window": window}, nil)
+		c.emit(cApp("PSubmit", cBool(present), cZ(int64(len(sig))), cBool(window), cBool(inSnapshot)), obs, true,
+			map[string]interface{}{"kind": "avs-submit", "operator": op.String(), "present": present, "siglen": len(sig), "in_response_window": window, "in_optin_snapshot": inSnapshot}, nil)
 		c.w.Count("kind=avs-submit")
-		if i >= len(c.env.Operators)-1 {
+		if i >= 2 {
 			break
 		}
 	}
@@ -950,7 +962,7 @@ func runC11(a *Args) error {
 	// operator 0 serves the task AVS and has voting power there
 	c11Must(app.OperatorKeeper.OptIn(ctx, env.Operators[0], c11AVS), "opt in")
 	c11Must(app.OperatorKeeper.UpdateVotingPower(ctx, c11AVS), "voting power")
-	for i, op := range env.Operators {
+	for i, op := range append(append([]sdk.AccAddress{}, env.Operators...), c.opX) {
 		kb := make([]byte, 32)
 		kb[31] = byte(7 + i)
 		sk, err := blst.SecretKeyFromBytes(kb)
@@ -961,7 +973,7 @@ func runC11(a *Args) error {
 	ep, _ := app.EpochsKeeper.GetEpochInfo(ctx, epochstypes.HourEpochID)
 	c11Must(app.AVSManagerKeeper.SetTaskInfo(ctx, &avstypes.TaskInfo{TaskContractAddress: c11Task, Name: "t", TaskId: c.taskID, Hash: []byte("h"),
 		TaskResponsePeriod: 2, TaskStatisticalPeriod: 1, TaskChallengePeriod: 2, ThresholdPercentage: 60,
-		StartingEpoch: uint64(ep.CurrentEpoch + 1), OptInOperators: []string{env.Operators[0].String()}, TaskTotalPower: sdk.ZeroDec()}), "task")
+		StartingEpoch: uint64(ep.CurrentEpoch + 1), OptInOperators: []string{env.Operators[0].String(), env.Operators[1].String()}, TaskTotalPower: sdk.ZeroDec()}), "task")
 	c.statEp = ep.CurrentEpoch + 1 + 2 + 1
 	// a gateway-registered LST whose oracle token never gets a price, listed by a third AVS
 	c11Must(app.AssetsKeeper.SetStakingAssetInfo(ctx, &assetstypes.StakingAssetInfo{
@@ -1023,6 +1035,8 @@ func runC11(a *Args) error {
 	c.avsCase([]int{1}, false, false, []string{"kf-C11-avs-empty-signature"})
 	c.avsCase([]int{1}, true, false, []string{"kf-C11-avs-empty-signature"})
 	c.avsCase([]int{2, 1}, false, false, nil)
+	// two signed results of the task's operators and a third one by an operator outside the opt-in snapshot (rejected)
+	c.avsCase([]int{2, 2, 2}, false, false, nil)
 	c.avsCase([]int{0}, false, false, nil)
 	// (2b) h_avs_novalue: a regular signed result, the AVS value entry is gone when the statistics run
 	c.avsCase([]int{2}, false, true, []string{"kf-C11-avs-no-usd-value"})
@@ -1134,7 +1148,7 @@ func runC11(a *Args) error {
 			op := []sdk.AccAddress{c.opX, env.Operators[0], env.Operators[1]}[rng.Intn(3)]
 			c.slashCase(mustCache(env.Ctx), op, fmt.Sprintf("0x1_0xb%x", slashSeq), nil, "random operator")
 		case k < 77:
-			n := 1 + rng.Intn(2)
+			n := 1 + rng.Intn(3)
 			kinds := make([]int, n)
 			for i := range kinds {
 				kinds[i] = rng.Intn(3)
